@@ -184,6 +184,45 @@ def reached_by_folding(rec, full, rng):
         return None
 
 
+def reached_by_multiplying(rec, full, rng):
+    """The same tree reached by rewriting IN PLACE inside it: one power v^k is first written as the product
+    (v * v^(k-1)), which Variable Multiplication turns into v^(1 + (k-1)) and Constant Arithmetic into v^k --
+    each rule replacing an operand of a node that stays (a negation, a coefficient product, a sum).  Whatever a
+    node remembers about its operands from before is stale by then.  Returns the rewritten root, or None when
+    the detour does not end in the same value-level tree as parsing `full`."""
+    import re
+    import mathy_core.rules as R
+    from mathy_core import expressions as E
+
+    hits = [m for m in re.finditer(r"([a-zA-Z])\^([2-9])(?![0-9.])", full)]
+    if not hits:
+        return None
+    m = rng.choice(hits)
+    v, k = m.group(1), int(m.group(2))
+    text = full[: m.start()] + (f"({v} * {v}^{k - 1})" if k > 2 else f"({v} * {v})") + full[m.end():]
+    try:
+        want = vs(full)
+        root = D.parse(text)
+        vm, ca = R.VariableMultiplyRule(), R.ConstantsSimplifyRule()
+        prods = [n for n in S.nodes_preorder(root) if isinstance(n, E.MultiplyExpression) and isinstance(n.left, E.VariableExpression) and n.left.identifier == v
+                 and (isinstance(n.right, E.VariableExpression) or (isinstance(n.right, E.PowerExpression) and isinstance(n.right.left, E.VariableExpression)))
+                 and vm.can_apply_to(n)]
+        if not prods:
+            return None
+        root = S.root_of(vm.apply_to(prods[0]).result)
+        sums = [n for n in S.nodes_preorder(root) if isinstance(n, E.AddExpression) and isinstance(n.left, E.ConstantExpression) and isinstance(n.right, E.ConstantExpression)
+                and isinstance(n.parent, E.PowerExpression) and n.parent.right is n and ca.can_apply_to(n)]
+        if not sums:
+            return None
+        root = S.root_of(ca.apply_to(sums[0]).result)
+        if A.v(S.shadow(root)) != want:
+            return None
+        rec.arm("schema:reached-by-rewriting-inside-the-tree")
+        return root
+    except Exception:
+        return None
+
+
 def _short_names(o):
     if isinstance(o, str):
         return o[0] if len(o) == 3 and o[2] == "k" and o[1] == o[0].swapcase() and o[0].isalpha() else o
@@ -214,7 +253,12 @@ def run_instance(rec, inst, rng, ctx_sample):
             folded = reached_by_folding(rec, full, rng)
             if folded is not None:
                 root = folded
-        if folded is None and (FORCE["via"] or rng.random() < 0.3):
+        mult = None
+        if folded is None and (FORCE.get("mult") or rng.random() < 0.3):
+            mult = reached_by_multiplying(rec, full, rng)
+            if mult is not None:
+                root = mult
+        if folded is None and mult is None and (FORCE["via"] or rng.random() < 0.3):
             via = reached_in_place(rec, root, rng)
             if via is not None:
                 root = via
@@ -294,6 +338,8 @@ def run_instance(rec, inst, rng, ctx_sample):
             continue
         w = {"schema": inst.schema, "rule": inst.rule, "text": inst.text, "context": ctx, "full": full, "kind": inst.kind, "params": inst.params,
              "applicable": inst.applicable}
+        if mult is not None:
+            w["reached_by_multiplying"] = True
         if renamed:
             w["renamed"] = True
         if via is not None:
@@ -601,6 +647,9 @@ def instances(rng):
     c1, c2 = rng.choice(COEFS), rng.choice(COEFS)
     yield Inst("DF", "DF", f"{c1}{v_}{e_} + {c2}{v_}{e_}", "df")
     yield Inst("DF", "DF:c", f"{c1}{v_}{e_} + {c2}{v_}{e_}", "df")
+    # a term whose coefficient -1 is written as a negation ('-x^3' is a negation node over the power)
+    en = rng.choice(["^2", "^3", "^4", "", "^2.5"])
+    yield Inst("DF", rng.choice(["DF", "DF:c"]), rng.choice([f"{c1}{v_}{en} + -{v_}{en}", f"-{v_}{en} + {c1}{v_}{en}", f"-{v_}{en} + -{v_}{en}"]), "df")
     p1, p2 = rng.sample(["2", "3", "5", "7", "11", ""], 2)
     neg = rng.choice([f"{p1}x + {p2}y", "x^2 + x^3", f"{p1}x + {p2}x^2", "x + 4", "4 + 6", "12 + 18", "x^2 + y^2", "3 + x", f"{p1}x^2 + {p2}y^2",
                       f"{p1}a + {p2}", "x + y"])
@@ -703,5 +752,6 @@ def replay(rec, cfg, w):
     FORCE["hostile"] = bool(w.get("numpy_invalid_raise"))
     FORCE["fold"] = bool(w.get("reached_by_folding"))
     FORCE["rename"] = bool(w.get("renamed"))
-    for i in range(12 if (FORCE["via"] or FORCE["fold"]) else 1):   # the in-place detour picks its swap node at random
+    FORCE["mult"] = bool(w.get("reached_by_multiplying"))
+    for i in range(12 if (FORCE["via"] or FORCE["fold"] or FORCE["mult"]) else 1):   # the in-place detour picks its swap node at random
         run_instance(rec, inst, cfg.rng(f"replay{i}"), [w["context"]] if FORCE["via"] and w.get("context") else inst.contexts)
